@@ -340,6 +340,12 @@ class CallMixin:
         if isinstance(recv, tuple) and recv[0] == "reg" and name in DEQUE_DICT_METHODS:
             yield from self.call_registry(recv, name, args, st, fx, node)
             return
+        if isinstance(recv, tuple) and recv[0] == "regtop" and name == "get" and args and args[0] == ("attr", SELF, "addr"):
+            # registry.get(self.addr[, default]): a keyed access; the address is always present (see e_Compare)
+            self.emit(st, fx, "REGADDR", node, reg=recv[1], key=args[0], how="get",
+                      base_node=node.func.value if isinstance(node.func, ast.Attribute) else None)
+            yield "ok", ("reg", recv[1], args[0]), st
+            return
         if isinstance(recv, tuple) and recv[0] == "regtop":
             self.emit(st, fx, "REGTOPCALL", node, reg=recv[1], name=name, args=tuple(args))
             yield "ok", ("call", f, tuple(args)), st
